@@ -10,6 +10,7 @@ import Pandora.Gen.C13Src
 import Pandora.Model.C13Funcs
 import Pandora.Model.C13Multi
 import Pandora.Model.C13Jsonline
+import Pandora.Model.C13Grpc
 
 set_option linter.unusedSimpArgs false
 
@@ -264,5 +265,81 @@ theorem mprRead_bridge (data : Bytes) (passes : Nat) (s : MPR) (hend : data[s.po
         have hf : (s.passBytes = 0 ∨ ¬ s.ammoNum > s.passStart) := .inr hp
         simp (disch := omega) [hb, hb', hp, hp', hf, hr, if_pos, if_neg]
         all_goals omega
+
+/-! ### grpc/json: pooled ammo objects (round 3)
+
+`Gen.C13Src.ammoReset` … are the methods of `ammo.Ammo` executed statement by statement, the object afterwards written out
+field by field: a `Reset` that leaves a field of the pooled object as it was (the id, the invalid flag, the payload …)
+is a different function and `ammoReset_bridge` fails; assignments in another order, a composite literal with or without
+field names, or `a.isInvalid = false` written separately give the same function. -/
+
+theorem ammoReset_bridge (a : GObj) (tag call metadata payload : Bytes) :
+    Gen.C13Src.ammoReset a tag call metadata payload = gReset a ⟨tag, call, metadata, payload⟩ := by
+  simp [Gen.C13Src.ammoReset, gReset]
+
+theorem ammoInvalidate_bridge (a : GObj) : Gen.C13Src.ammoInvalidate a = gInvalidate a := by
+  simp [Gen.C13Src.ammoInvalidate, gInvalidate]
+
+theorem ammoSetID_bridge (a : GObj) (id : Nat) : Gen.C13Src.ammoSetID a id = gSetID a id := by
+  simp [Gen.C13Src.ammoSetID, gSetID]
+
+theorem ammoIsInvalid_bridge (a : GObj) : Gen.C13Src.ammoIsInvalid a = a.isInvalid := by
+  simp [Gen.C13Src.ammoIsInvalid]
+
+/-- the two accessors never disagree -/
+theorem ammoIsValid_bridge (a : GObj) : Gen.C13Src.ammoIsValid a = !Gen.C13Src.ammoIsInvalid a := by
+  simp [Gen.C13Src.ammoIsValid, Gen.C13Src.ammoIsInvalid]
+
+/-- `decodeAmmo` as it stands resets the pooled object on BOTH paths (the model's `fixed := true`) -/
+theorem decodeAmmo_bridge (parsed : Option GFields) (am : GObj) :
+    Gen.C13Src.decodeAmmo parsed am = gDecodeAmmo true parsed am := by
+  cases parsed <;> simp [Gen.C13Src.decodeAmmo, gDecodeAmmo, ammoReset_bridge, GFields.zero]
+
+/-- the body of the scan loop of `Provider.start` -/
+theorem startBody_bridge (coe : Bool) (chosen : Bytes → Bool) (parsed : Option GFields) (pooled : GObj) (ammoNum : Nat) :
+    Gen.C13Src.startBody coe chosen parsed pooled ammoNum =
+      (gBody true coe chosen parsed pooled ammoNum).map fun r => (r.1, (r.2 : Int)) := by
+  unfold Gen.C13Src.startBody gBody
+  rw [decodeAmmo_bridge]
+  cases parsed with
+  | none =>
+    cases coe <;> cases hc : chosen [] <;>
+      simp [gDecodeAmmo, gReset, gInvalidate, ammoInvalidate_bridge, GFields.zero, hc]
+  | some f =>
+    cases coe <;> cases hc : chosen f.tag <;>
+      simp [gDecodeAmmo, gReset, gInvalidate, ammoInvalidate_bridge, GFields.zero, hc]
+
+/-- the limit half of the loop condition -/
+theorem startLoopCond_bridge (limit ammoNum : Nat) :
+    Gen.C13Src.startLoopCond limit ammoNum ↔ ¬ (limit ≠ 0 ∧ ammoNum ≥ limit) := by
+  unfold Gen.C13Src.startLoopCond
+  omega
+
+def grpcEndCode : PassEnd → Int
+  | .again => 0
+  | .stop .ok => 1
+  | .stop (.err c) => if c == "toolong" then 3 else 2
+  | .stop _ => 5
+
+/-- one round of the outer loop: the pass counter is advanced first, the scanner's error comes before the limits, the
+"no ammo" answer before the seek -/
+theorem grpcPassEnd_bridge (limit passes passNum ammoNum : Nat) (scanErr : Bool) :
+    Gen.C13Src.grpcPassEnd limit passes passNum ammoNum scanErr =
+      grpcEndCode (grpcPassEnd true limit passes (passNum + 1) ammoNum scanErr) := by
+  unfold Gen.C13Src.grpcPassEnd grpcPassEnd
+  cases scanErr
+  · by_cases h1 : limit ≠ 0 ∧ ammoNum ≥ limit
+    · have h1' : ((limit : Int) ≠ 0 ∧ (ammoNum : Int) ≥ limit) := by omega
+      simp (disch := omega) [h1, h1', grpcEndCode, if_pos, if_neg]
+    · have h1' : ¬ ((limit : Int) ≠ 0 ∧ (ammoNum : Int) ≥ limit) := by omega
+      by_cases h2 : passes ≠ 0 ∧ passNum + 1 ≥ passes
+      · have h2' : ((passes : Int) ≠ 0 ∧ (passNum : Int) + 1 ≥ passes) := by omega
+        simp (disch := omega) [h1, h1', h2, h2', grpcEndCode, if_pos, if_neg]
+      · have h2' : ¬ ((passes : Int) ≠ 0 ∧ (passNum : Int) + 1 ≥ passes) := by omega
+        by_cases h3 : ammoNum = 0
+        · simp (disch := omega) [h1, h1', h2, h2', h3, grpcEndCode, if_pos, if_neg]
+        · have h3' : ¬ ((ammoNum : Int) = 0) := by omega
+          simp (disch := omega) [h1, h1', h2, h2', h3, h3', grpcEndCode, if_pos, if_neg]
+  · simp [grpcEndCode]
 
 end Pandora.Bridge.C13
